@@ -441,7 +441,7 @@ func (p *projSpec) renderTarget(t *targetSpec) string {
 	params := []string{}
 	self := t.SelfParam
 	for _, r := range t.Refs {
-		if r.Kind == "default" {
+		if r.Kind == "default" || r.Kind == "mutdefault" {
 			self = true
 		}
 	}
@@ -482,6 +482,9 @@ func (p *projSpec) renderTarget(t *targetSpec) string {
 			args = append(args, fmt.Sprintf("RULES_%s.render()", t.Name))
 		case "fnkeys":
 			args = append(args, fmt.Sprintf("(len(FK_%s), len(FS_%s), fk_%s_a())", t.Name, t.Name, t.Name))
+		case "mutdefault":
+			params = append(params, "acc=[]")
+			pre = append(pre, "    acc.append(len(acc))")
 		case "kwonly":
 			args = append(args, fmt.Sprintf("kw_%s(1, b = 2)", t.Name))
 		case "cacheonce":
